@@ -38,7 +38,7 @@ def _private(path):
     return any(q.startswith("_") and not q.startswith("__") for q in parts)
 
 
-def nstate_diff(a, b, rtol=0.0, atol=0.0, skip=()):
+def nstate_diff(a, b, rtol=0.0, atol=0.0, skip=(), loose_dtype=()):
     """state_diff of vlib.digest on the normalised walks; None when equal."""
     la, lb = nwalk(a, skip), nwalk(b, skip)
     ma, mb = dict(la), dict(lb)
@@ -56,7 +56,11 @@ def nstate_diff(a, b, rtol=0.0, atol=0.0, skip=()):
             if x.shape != y.shape:
                 return "%s: shape %s vs %s" % (p, x.shape, y.shape)
             if x.dtype != y.dtype:
-                return "%s: dtype %s vs %s" % (p, x.dtype, y.dtype)
+                if any(p.endswith(sfx) for sfx in loose_dtype) and x.dtype.kind in "iuf" and y.dtype.kind in "iuf":
+                    # the values are what is observable; an integer-typed matrix may come back as float
+                    x, y = x.astype(float), y.astype(float)
+                else:
+                    return "%s: dtype %s vs %s" % (p, x.dtype, y.dtype)
             if x.dtype.kind in "fc" and (rtol or atol):
                 sc = max(1.0, float(np.abs(y).max())) if y.size else 1.0
                 ok = bool(np.all(np.abs(x - y) <= atol + rtol * sc) or np.array_equal(x, y, equal_nan=True))
